@@ -76,7 +76,7 @@ fn quad(ops: &mut Vec<Op>, case_id: &str, fid: &str, plan: FaultPlan) {
 pub fn run(ctx: &Ctx) -> ! {
     let mut ev = Evidence::default();
     let mut rep = Reporter::new(ctx);
-    let n_gen = if ctx.quick() { 2_000 } else { 50_000 };
+    let n_gen = if ctx.quick() { 8_000 } else { 80_000 };
     let cases = workload(ctx, n_gen, &mut ev);
 
     // phase 1: control arm — which programs are accepted, how many target operations does the fault-free run make
@@ -159,7 +159,7 @@ pub fn run(ctx: &Ctx) -> ! {
     ev.extra.insert("single_fault_cases_executed".into(), enumerated.into());
 
     // phase 3: sampled multi-fault, sticky and burst plans; 1-2 nodes under random schedules
-    let n_multi = if ctx.quick() { 10_000 } else { 400_000 };
+    let n_multi = if ctx.quick() { 40_000 } else { 600_000 };
     let usable: Vec<usize> = (0..cases.len()).filter(|i| t_ops[*i].as_ref().is_some_and(|(t, _)| *t >= 2)).collect();
     let mut rng = Rng::new(crate::prng::mix(ctx.seed, 0xC17_3));
     let mut made = 0;
